@@ -76,6 +76,7 @@ type c09URL struct {
 	Host   []string `json:"host"`
 	Port   []string `json:"port"`
 	Path   []string `json:"path"`
+	Tail   string   `json:"tail"` // what follows the path: "?", "?a=1", "?a=1#top", "#top" (optional)
 }
 
 type c09Req struct {
@@ -204,6 +205,7 @@ func c09URLText(u c09URL) string {
 		}
 	}
 	b.WriteString(c09PathText(u.Path))
+	b.WriteString(u.Tail)
 	return b.String()
 }
 
